@@ -3,9 +3,11 @@
 //! model) evaluates the same inputs and ./check diffs the two.  `primserver` serves the model's
 //! cryptographic primitive calls with the same RustCrypto crates the implementation links.
 mod canon;
+mod framed;
 mod prims;
 mod rng;
 mod t1_addr;
+mod t1_misc;
 mod t1_pw;
 mod t1_sstcp;
 mod util;
@@ -23,6 +25,7 @@ fn exec_case(f: &[&str]) -> Vec<String> {
     match f[0] {
         "pw" => t1_pw::exec(f),
         "sstcp" => t1_sstcp::exec(f),
+        "trojsrv" | "trojcu" | "trojenc" | "trojsenc" | "s5ir" | "s5cr" | "s5irs" | "s5crs" | "s5udp" | "s5udpenc" | "http" => t1_misc::exec(f),
         "s5enc" | "s5dec" | "s5try" | "vmw" | "vmr" => t1_addr::exec(f),
         _ => vec![format!("UNKNOWN-COMPONENT {}", f[0])],
     }
@@ -61,6 +64,9 @@ fn main() {
             match comp {
                 "pw" => t1_pw::generate(&mut out, seed, thorough),
                 "sstcp" => t1_sstcp::generate(&mut out, seed, thorough),
+                "trojan" => t1_misc::generate_trojan(&mut out, seed, thorough),
+                "socks5" => t1_misc::generate_socks5(&mut out, seed, thorough),
+                "http" => t1_misc::generate_http(&mut out, seed, thorough),
                 "addr" => t1_addr::generate(&mut out, seed, thorough),
                 _ => {
                     eprintln!("unknown component {}", comp);
